@@ -2,7 +2,7 @@
 import ast
 
 from ..model import AnalysisError, dotted, unparse
-from ..util import FACTS, FACTS_I, U, enum_paths, walk_no_nested
+from ..util import resolved_text, FACTS, FACTS_I, U, enum_paths, walk_no_nested
 from ..paths import call_attr, call_name
 
 CORE = 'scales/core.py'
@@ -445,7 +445,16 @@ def r4(ctx):
   ctx.ob('C20.R4', p, 'unknown scheme raises', seen.get('unknown', False), 'no raising path for a missing handler', whyu)
   ctx.ob('C20.R4', p, 'known scheme returns handler(parsed)', seen.get('known', False), 'handler is not applied to the parsed uri', whyu)
   lk = [c for c in walk_no_nested(p.node) if isinstance(c, ast.Call) and call_attr(c) == 'get' and U(c.func.value) == 'self.handlers']
-  ok = len(lk) == 1 and U(lk[0].args[0]).replace(' ', '') in ('parsed.scheme.lower()', 'parsed.scheme')
+  ok = len(lk) == 1
+  n_lk = 0
+  for ev, ex in enum_paths(ctx, p):
+    for i_, e in enumerate(ev):
+      if e.kind == 'call' and lk and e.node is lk[0] and e.node.args:
+        n_lk += 1
+        key = resolved_text(ev, i_, e.node.args[0])
+        want = [resolved_text(ev, i_, ast.parse(t, mode='eval').body) for t in ('parsed.scheme.lower()', 'parsed.scheme')]
+        ok = ok and key in want
+  ok = ok and n_lk >= 1
   ctx.ob('C20.R4', p, 'handler selected by the scheme', ok, 'lookup is %s' % [U(c) for c in lk], whyu)
   # fragment workaround keeps every other component
   pr = [c for c in walk_no_nested(p.node) if isinstance(c, ast.Call) and U(c.func) == 'ParseResult']
